@@ -1045,6 +1045,22 @@ impl<'a> Iterator for SelectorIter<'a> {
                                 return None;
                             } else {
                                 let result = self.get_internal_ranged_item(self.selector);
+                                if self.recurse_annotation {
+                                    //the range stands for plain annotation selectors: follow each of them like one
+                                    if let Selector::AnnotationSelector(a_handle, _) = result.as_ref() {
+                                        let annotation: Result<&Annotation, _> = self.store.get(*a_handle);
+                                        if let Ok(annotation) = annotation {
+                                            self.subiterstack.push(SelectorIter {
+                                                selector: annotation.target(),
+                                                subiterstack: Vec::new(),
+                                                cursor_in_range: 0,
+                                                recurse_annotation: self.recurse_annotation,
+                                                store: self.store,
+                                                done: false,
+                                            });
+                                        }
+                                    }
+                                }
                                 self.cursor_in_range += 1;
                                 return Some(result);
                             }
@@ -1076,11 +1092,8 @@ impl<'a> Iterator for SelectorIter<'a> {
                 let result = self.subiterstack.last_mut().unwrap().next();
                 if result.is_none() {
                     self.subiterstack.pop();
-                    if self.subiterstack.is_empty() {
-                        return None;
-                    } else {
-                        continue; //recursion
-                    }
+                    //(back at the top of the loop: either there is more on the stack, or this selector itself has more to give (a range) or is done)
+                    continue;
                 } else {
                     return result;
                 }
